@@ -14,7 +14,8 @@ use ckc_rs::cards::seven::Seven;
 use ckc_rs::cards::six::Six;
 use ckc_rs::cards::three::Three;
 use ckc_rs::cards::two::Two;
-use ckc_rs::cards::{HandValidator, Permutator};
+use ckc_rs::cards::{HandRanker, HandValidator, Permutator};
+use ckc_rs::Shifty;
 
 pub const NREGS: usize = 8;
 pub const MAX_LEN: usize = 48;
@@ -95,6 +96,9 @@ pub enum Op {
     CloneOut { dst: u8, src: u8 },
     /// `dst.clone_from(&src)` when both hold the same size
     CloneFrom { dst: u8, src: u8 },
+    /// some other public method of the container is called and its result ignored: ranking,
+    /// validity, sorted copy, suit shift … — what users do between the calls C19 is about
+    Env { r: u8, which: u8 },
 }
 
 pub const K_NEW: usize = 0;
@@ -107,7 +111,8 @@ pub const K_COPY: usize = 6;
 pub const K_SORT: usize = 7;
 pub const K_CLONE: usize = 8;
 pub const K_CLONE_FROM: usize = 9;
-const KINDS: [&str; 10] = ["New", "NewDefault", "Set", "Compose6", "Compose7", "Select", "CopyOut", "SortInPlace", "CloneOut", "CloneFrom"];
+pub const K_ENV: usize = 10;
+const KINDS: [&str; 11] = ["New", "NewDefault", "Set", "Compose6", "Compose7", "Select", "CopyOut", "SortInPlace", "CloneOut", "CloneFrom", "Env"];
 
 // ---- probes ---------------------------------------------------------------
 
@@ -155,7 +160,10 @@ const P_ALPHA_DECK: usize = 90;
 const P_CLONE: usize = 91;
 const P_CLONE_FROM: usize = 92;
 const P_CLONE_FROM_PERMUTATION: usize = 93;
-const NPROBES: usize = 94;
+const P_ENV: usize = 94;
+const P_ENV_PANICKED: usize = 95;
+const P_ENV_RANKING: usize = 96;
+const NPROBES: usize = 97;
 
 fn probe_names() -> Vec<String> {
     let mut v = vec![String::new(); NPROBES];
@@ -205,6 +213,9 @@ fn probe_names() -> Vec<String> {
     v[P_LEN_M] = "swarm_history_len_4_12".into();
     v[P_LEN_L] = "swarm_history_len_13_48".into();
     v[P_LEN_XL] = "swarm_history_long_lived_200_plus_operations".into();
+    v[P_ENV] = "environment_call_other_public_method".into();
+    v[P_ENV_PANICKED] = "environment_call_panicked_and_was_ignored".into();
+    v[P_ENV_RANKING] = "environment_call_ranking_of_a_five_six_or_seven".into();
     v[P_CLONE] = "clone_out".into();
     v[P_CLONE_FROM] = "clone_from_same_size".into();
     v[P_CLONE_FROM_PERMUTATION] = "clone_from_where_destination_holds_a_permutation_of_the_source".into();
@@ -216,8 +227,8 @@ fn probe_names() -> Vec<String> {
     v
 }
 
-// cell = (op kind 10) x (size 6) x (slot 7) x (mask of slots overwritten before, 128)
-const CELL_BITS: usize = 10 * 6 * 7 * 128;
+// cell = (op kind 11) x (size 6) x (slot 7) x (mask of slots overwritten before, 128)
+const CELL_BITS: usize = 11 * 6 * 7 * 128;
 #[inline]
 fn cell(kind: usize, n: usize, slot: usize, mask: u8) -> usize {
     ((kind * 6 + (n - 2)) * 7 + slot) * 128 + mask as usize
@@ -375,6 +386,72 @@ pub fn reg_set(reg: &mut Reg, k: usize, w: u32) {
             _ => h.set_seventh(w),
         },
     }
+}
+
+/// Calls one of the container's other public methods and throws the result away. Returns whether
+/// it was a ranking call. None of them takes `&mut self`; whatever they return or however they
+/// fail is some other property's subject.
+fn reg_env(reg: &Reg, which: usize) -> bool {
+    use std::hint::black_box as bb;
+    let mut ranking = false;
+    match reg {
+        Reg::Two(h) => match which % 9 {
+            0 => { bb(h.sort()); }
+            1 => { bb(h.are_unique()); }
+            2 => { bb(HandValidator::is_valid(h)); }
+            3 => { bb(h.contain_blank()); }
+            4 => { bb(h.shift_suit()); }
+            5 => { bb(h.chen_formula()); }
+            6 => { bb(h.is_suited()); }
+            7 => { bb(h.high_card()); }
+            _ => { bb(h.is_corrupt()); }
+        },
+        Reg::Three(h) => match which % 5 {
+            0 => { bb(h.sort()); }
+            1 => { bb(h.are_unique()); }
+            2 => { bb(HandValidator::is_valid(h)); }
+            3 => { bb(h.shift_suit()); }
+            _ => { bb(h.is_corrupt()); }
+        },
+        Reg::Four(h) => match which % 5 {
+            0 => { bb(h.sort()); }
+            1 => { bb(h.are_unique()); }
+            2 => { bb(HandValidator::is_valid(h)); }
+            3 => { bb(h.shift_suit()); }
+            _ => { bb(h.contain_blank()); }
+        },
+        Reg::Five(h) => match which % 10 {
+            0 => { ranking = true; bb(h.hand_rank_value()); }
+            1 => { ranking = true; bb(h.hand_rank_value_validated()); }
+            2 => { ranking = true; bb(h.hand_rank_value_and_hand()); }
+            3 => { bb(h.sort()); }
+            4 => { bb(HandValidator::is_valid(h)); }
+            5 => { bb(h.shift_suit()); }
+            6 => { bb(h.is_flush()); }
+            7 => { bb(h.is_straight()); }
+            8 => { bb(h.or_rank_bits()); }
+            _ => { ranking = true; bb(h.hand_rank()); }
+        },
+        Reg::Six(h) => match which % 7 {
+            0 => { ranking = true; bb(h.hand_rank_value()); }
+            1 => { ranking = true; bb(h.hand_rank_value_validated()); }
+            2 => { ranking = true; bb(h.hand_rank_value_and_hand()); }
+            3 => { bb(h.sort()); }
+            4 => { bb(HandValidator::is_valid(h)); }
+            5 => { bb(h.shift_suit()); }
+            _ => { bb(h.are_unique()); }
+        },
+        Reg::Seven(h) => match which % 7 {
+            0 => { ranking = true; bb(h.hand_rank_value()); }
+            1 => { ranking = true; bb(h.hand_rank_value_validated()); }
+            2 => { ranking = true; bb(h.hand_rank_value_and_hand()); }
+            3 => { bb(h.sort()); }
+            4 => { bb(HandValidator::is_valid(h)); }
+            5 => { bb(h.shift_suit()); }
+            _ => { bb(h.are_unique()); }
+        },
+    }
+    ranking
 }
 
 fn reg_sort_in_place(reg: &mut Reg) {
@@ -910,6 +987,29 @@ impl C19 {
                         obs.hit(P_NOOP);
                     }
                 }
+                Op::Env { r, which } => {
+                    let r = *r as usize % NREGS;
+                    if let Some(reg) = regs[r] {
+                        let n = model[r].n as usize;
+                        at(step, kind, SIZE_NAMES[n]);
+                        obs.hit(P_ENV);
+                        obs.cell(cell(kind, n, (*which as usize) % 7, 0));
+                        // the result, or a panic (ranking a hand with a blank panics on the pinned tree,
+                        // DESIGN 7), is not C19's business and is kept out of the digest; what C19 says is
+                        // that afterwards every register still reads back as its model
+                        match crate::sim::swallow_crate_panic(|| reg_env(&reg, *which as usize)) {
+                            Some(true) => obs.hit(P_ENV_RANKING),
+                            Some(false) => {}
+                            None => obs.hit(P_ENV_PANICKED),
+                        }
+                        h = fold(h, (r as u64) << 8 | *which as u64);
+                        if obs.tracing() {
+                            obs.log(format!("#{} r{}({}): environment call #{} (result ignored)", step, r, SIZE_NAMES[n], which));
+                        }
+                    } else {
+                        obs.hit(P_NOOP);
+                    }
+                }
                 Op::SortInPlace { r } => {
                     let r = *r as usize % NREGS;
                     if let Some(mut tmp) = regs[r] {
@@ -1020,13 +1120,13 @@ const ALPHA_SORTED: usize = 3;
 const ALPHA_MIXED: usize = 4;
 const ALPHA_DECK: usize = 5;
 
-// weights: New, NewDefault, Set, Compose6, Compose7, Select, CopyOut, SortInPlace, CloneOut, CloneFrom
-const MIXES: [[u32; 10]; 5] = [
-    [3, 1, 48, 2, 2, 3, 3, 1, 1, 2],   // setter heavy
-    [8, 2, 18, 12, 12, 4, 3, 1, 1, 2], // compose heavy
-    [5, 1, 16, 4, 4, 24, 3, 1, 1, 2],  // select heavy
-    [6, 2, 26, 6, 6, 8, 6, 3, 3, 5],   // balanced
-    [5, 1, 24, 3, 3, 4, 18, 2, 8, 14],  // copy heavy
+// weights: New, NewDefault, Set, Compose6, Compose7, Select, CopyOut, SortInPlace, CloneOut, CloneFrom, Env
+const MIXES: [[u32; 11]; 5] = [
+    [3, 1, 48, 2, 2, 3, 3, 1, 1, 2, 5],   // setter heavy
+    [8, 2, 18, 12, 12, 4, 3, 1, 1, 2, 5], // compose heavy
+    [5, 1, 16, 4, 4, 24, 3, 1, 1, 2, 8],  // select heavy
+    [6, 2, 26, 6, 6, 8, 6, 3, 3, 5, 8],   // balanced
+    [5, 1, 24, 3, 3, 4, 18, 2, 8, 14, 5],  // copy heavy
 ];
 
 struct Gen<'a> {
@@ -1177,7 +1277,8 @@ impl World for C19 {
         // Set: sum over sizes of slots x 2^slots = 1536; CopyOut: sum of 2^slots = 252;
         // New, NewDefault, SortInPlace: one per size; Compose: 2; Select: 6 + 7 first indexes
         // CloneOut / CloneFrom: like CopyOut, 252 each
-        Some(1536 + 252 + 6 + 6 + 6 + 2 + 13 + 252 + 252)
+        // Env: size x first 7 method indexes
+        Some(1536 + 252 + 6 + 6 + 6 + 2 + 13 + 252 + 252 + 6 * 7)
     }
     fn cell_rule() -> &'static str {
         "abstract step cell = (operation kind, container size, slot written or first selected index, mask of slots of that register already overwritten by setters since it was created)"
@@ -1340,6 +1441,10 @@ impl World for C19 {
                         g.shadow[dst] = g.shadow[s];
                     }
                     Op::CopyOut { dst: dst as u8, src: s as u8 }
+                }
+                K_ENV => {
+                    let r = *g.rng.pick(&live);
+                    Op::Env { r: r as u8, which: g.rng.below(16) as u8 }
                 }
                 K_CLONE => {
                     let s = *g.rng.pick(&live);
@@ -1744,6 +1849,49 @@ impl World for C19 {
             }
             out.push((format!("clone and clone_from {}", SIZE_NAMES[n as usize]), ops));
         }
+        // environment calls between the judged operations: rank, then read back and select; write a
+        // slot, rank again, read back (anything an evaluation remembers must not leak into the reads)
+        for n in [5u8, 6, 7] {
+            for start in [0usize, 9, 26] {
+                let mut w = [0u32; 7];
+                for k in 0..7 {
+                    w[k] = card_word((start + k * 5) % 52);
+                }
+                let mut ops = vec![Op::New { dst: 0, n, via: VIA_ARR, words: w }];
+                for which in 0..10u8 {
+                    ops.push(Op::Env { r: 0, which });
+                    if n >= 6 && which < 3 {
+                        // right after an evaluation: every combination the evaluator itself tries
+                        // (the winning one is among them)
+                        if n == 6 {
+                            for row in Six::FIVE_CARD_PERMUTATIONS {
+                                ops.push(Op::Select { dst: 1, src: 0, idx: row });
+                            }
+                        } else {
+                            for row in Seven::FIVE_CARD_PERMUTATIONS {
+                                ops.push(Op::Select { dst: 1, src: 0, idx: row });
+                            }
+                        }
+                        ops.push(Op::Env { r: 0, which });
+                    }
+                    if n >= 6 {
+                        ops.push(Op::Select { dst: 1, src: 0, idx: [4, 3, 2, 1, 0] });
+                        ops.push(Op::Select { dst: 1, src: 0, idx: [0, 1, 2, 3, n - 1] });
+                        ops.push(Op::Select { dst: 1, src: 0, idx: [n - 1, n - 2, 2, 1, 0] });
+                    }
+                    ops.push(Op::Set { r: 0, k: which % n, w: card_word((start + 31 + which as usize) % 52) });
+                }
+                out.push((format!("environment calls on a {} of real cards starting at {}", SIZE_NAMES[n as usize], start), ops));
+            }
+        }
+        for n in 2..=7u8 {
+            let mut ops = vec![Op::New { dst: 0, n, via: VIA_ARR, words: tagged(4) }, Op::NewDefault { dst: 1, n }];
+            for which in 0..10u8 {
+                ops.push(Op::Env { r: 0, which });
+                ops.push(Op::Env { r: 1, which });
+            }
+            out.push((format!("environment calls on a {} of non-card words and on a default one", SIZE_NAMES[n as usize]), ops));
+        }
         // copies are independent
         for n in 2..=7u8 {
             out.push((
@@ -1774,7 +1922,15 @@ impl World for C19 {
         let n = 2 + (shape >> 4) as u8 % 6;
         let reps = 1 + (shape >> 12) as usize % 3;
         let mut ops = Vec::new();
-        match shape % 5 {
+        match shape % 6 {
+            5 => {
+                // a long run of setter calls on one object (something that only goes wrong after many
+                // calls by the other callers — a ring lapped, a counter wrapped — needs room)
+                ops.push(Op::New { dst: 0, n, via: VIA_ARR, words: words(rng) });
+                for _ in 0..(60 + rng.usize_below(60)) {
+                    ops.push(Op::Set { r: 0, k: rng.below(n as u64) as u8, w: words(rng)[0] });
+                }
+            }
             0 => {
                 // setters on one size, each write made twice
                 ops.push(Op::New { dst: 0, n, via: VIA_ARR, words: words(rng) });
@@ -1844,6 +2000,7 @@ impl World for C19 {
             Op::SortInPlace { .. } => K_SORT,
             Op::CloneOut { .. } => K_CLONE,
             Op::CloneFrom { .. } => K_CLONE_FROM,
+            Op::Env { .. } => K_ENV,
         }
     }
 
@@ -1865,6 +2022,7 @@ impl World for C19 {
             Op::SortInPlace { r } => J::obj().with("op", J::str("SortInPlace")).with("r", u(*r)),
             Op::CloneOut { dst, src } => J::obj().with("op", J::str("CloneOut")).with("dst", u(*dst)).with("src", u(*src)),
             Op::CloneFrom { dst, src } => J::obj().with("op", J::str("CloneFrom")).with("dst", u(*dst)).with("src", u(*src)),
+            Op::Env { r, which } => J::obj().with("op", J::str("Env")).with("r", u(*r)).with("which", u(*which)),
         }
     }
 
@@ -1907,6 +2065,7 @@ impl World for C19 {
             "SortInPlace" => Ok(Op::SortInPlace { r: u8f("r")? }),
             "CloneOut" => Ok(Op::CloneOut { dst: u8f("dst")?, src: u8f("src")? }),
             "CloneFrom" => Ok(Op::CloneFrom { dst: u8f("dst")?, src: u8f("src")? }),
+            "Env" => Ok(Op::Env { r: u8f("r")?, which: u8f("which")? }),
             other => Err(format!("unknown op {}", other)),
         }
     }
@@ -1968,6 +2127,11 @@ impl World for C19 {
                 }
             }
             Op::CopyOut { .. } | Op::SortInPlace { .. } | Op::CloneOut { .. } | Op::CloneFrom { .. } => {}
+            Op::Env { r, which } => {
+                if *which > 0 {
+                    out.push(Op::Env { r: *r, which: 0 });
+                }
+            }
         }
         out
     }
@@ -1985,6 +2149,7 @@ impl World for C19 {
                         "Six::from_1_and_2_and_3, Seven::new",
                         "Permutator::five_from_permutation on Six and Seven",
                         "Copy assignment, Clone::clone and Clone::clone_from of containers; HandValidator::sort_in_place as an environment operation (result not judged)",
+                        "environment operations: ranking (HandRanker), validity, uniqueness, sorted copy, suit shift, Two's starting-hand helpers — called between the judged operations, results and panics ignored",
                         "first(), iter() and five_from_permutation both by method syntax and through the fully qualified trait paths (HandValidator::first, HandValidator::iter, Permutator::five_from_permutation)",
                     ]
                     .iter()
